@@ -352,8 +352,11 @@ def suite_c10(seed, thorough):
                         bad = ("verdict", io[2] or "ok", m_verdict)
                 if bad and bad[0] in ("cache", "status", "status-paths") and i_files == m_files:
                     # see real_hist: byte-identical contents race for one cache entry under the OS scheduler
-                    cs = [c for p, (c, _) in (files or {}).items() if p not in ("build.rules", "a", "b", "c")] + [c for _, (c, _) in (cache or {}).items()]
-                    if len(set(cs)) < len(cs):
+                    def twins10(fs, ch):
+                        cs = [c for p, (c, _) in (fs or {}).items() if p not in ("build.rules", "a", "b", "c")] + [c for _, (c, _) in (ch or {}).items()]
+                        return len(set(cs)) < len(cs)
+                    prev10 = log[idx - 1] if idx > 0 else (None, {}, {})
+                    if twins10(files, cache) or twins10(prev10[1], prev10[2]):
                         res.count("not-compared-further:byte-identical-contents-race-under-the-os-scheduler")
                         break
                 if bad:
